@@ -994,7 +994,10 @@ class SupportGenerator(CodeGenerator):
             self._handle_overwrite(target, allow_overwrite)
             target.parent.mkdir(parents=True, exist_ok=True)
             if len(line_pps) == 0:
-                shutil.copy(str(resource), str(target))
+                # Not shutil.copy: with a directory at the target path it would put the file *into* that directory
+                # (and the file post-processors, e.g. SetFileMode, would then be applied to the directory).
+                shutil.copyfile(str(resource), str(target))
+                shutil.copymode(str(resource), str(target))
             else:
                 self._copy_header_using_line_pps(resource, target, line_pps)
             for file_pp in file_pps:
